@@ -39,6 +39,23 @@ from .types import StrPath
 
 _LOGGER = logging.getLogger(__name__)
 
+_LINE_END_PATTERN = re.compile(r"\r\n|\r|\n")
+
+
+def split_lines(text: str, keepends: bool = False) -> list[str]:
+    """Like :meth:`str.splitlines`, but only CR LF, CR and LF end a line. A form
+    feed, a vertical tab or U+2028 inside a line is a character of that line:
+    splitting there would tear the line apart.
+    """
+    lines = []
+    start = 0
+    for match in _LINE_END_PATTERN.finditer(text):
+        lines.append(text[start : match.end() if keepends else match.start()])
+        start = match.end()
+    if start < len(text):
+        lines.append(text[start:])
+    return lines
+
 
 class MultiLineSegments(NamedTuple):
     """Components that make up a multi-line comment style, e.g. '/*', '*', and
@@ -159,7 +176,7 @@ class CommentStyle:
             raise CommentParseError(f"{cls} cannot parse single-line comments")
         result_lines = []
 
-        for line in text.splitlines():
+        for line in split_lines(text):
             if cls.SINGLE_LINE_REGEXP:
                 if match := cls.SINGLE_LINE_REGEXP.match(line):
                     line = line.removeprefix(match.group(0))
@@ -206,7 +223,7 @@ class CommentStyle:
 
         result_lines = []
         try:
-            first, *lines, last = text.splitlines()
+            first, *lines, last = split_lines(text)
             last_is_first = False
         except ValueError:
             first = text
@@ -271,7 +288,7 @@ class CommentStyle:
         if not any((cls.can_handle_single(), cls.can_handle_multi())):
             raise CommentParseError(f"{cls} cannot parse comments")
 
-        lines = text.splitlines()
+        lines = split_lines(text)
         end: Optional[int] = None
 
         # Attempt multi-line comments first, in case of comment styles like
